@@ -66,3 +66,22 @@ def mut_borrow_consumers(fn, adt, field):
         if (site, bi) not in [(r[0], r[1]) for r in res]:
             res.append((site, bi, t))
     return res
+
+
+def param_consumers(fn, param_local):
+    """Callees that receive the `&mut` parameter `param_local` of fn (directly, moved or reborrowed): list of terminators;
+    None in the list when the parameter is used in some other way that could leak it."""
+    holders = {param_local}
+    for bi, si, place, rv in fn.assigns():
+        if place["proj"]:
+            continue
+        if rv["k"] in ("ref", "rawptr") and rv["place"]["local"] in holders and [e["k"] for e in rv["place"]["proj"]] == ["deref"]:
+            holders.add(place["local"])
+        elif rv["k"] == "use" and rv["op"]["k"] in ("copy", "move") and not rv["op"]["place"]["proj"] and rv["op"]["place"]["local"] in holders:
+            holders.add(place["local"])
+    out = []
+    for bi, t in fn.calls():
+        for a in t["args"]:
+            if a["k"] in ("copy", "move") and not a["place"]["proj"] and a["place"]["local"] in holders:
+                out.append(t)
+    return out
